@@ -1350,6 +1350,12 @@ impl WideColumnValue<ProbeCol> for ProbeVal {
 fn atomic_probe<D: KvDatabase>(db: D, batches: u64, fillers: u64) -> Value {
     const A: u64 = 0;
     const B: u64 = u64::MAX;
+    const SET: u64 = 7;
+    const GEN: u64 = 1_000_000;
+    let members = (fillers / 2).max(1);
+    let scans = AtomicU64::new(0);
+    let nscan_torn = AtomicU64::new(0);
+    let scan_torn: Mutex<Vec<Value>> = Mutex::new(vec![]);
     let stop = AtomicBool::new(false);
     let torn: Mutex<Vec<Value>> = Mutex::new(vec![]);
     let ntorn = AtomicU64::new(0);
@@ -1371,21 +1377,57 @@ fn atomic_probe<D: KvDatabase>(db: D, batches: u64, fillers: u64) -> Value {
                 }
             }
         });
+        // second reader: member scans.  Batch i inserts generation i of the
+        // set (members i * GEN + 0 .. members) and deletes generation i - 2:
+        // a scan sees every generation either completely or not at all, and
+        // at most two consecutive ones.
+        let sc = s.spawn(|| {
+            while !stop.load(Ordering::SeqCst) {
+                let mut per: BTreeMap<u64, u64> = BTreeMap::new();
+                for e in db.scan_members::<PadSet>(&SET) {
+                    *per.entry(e / GEN).or_default() += 1;
+                }
+                scans.fetch_add(1, Ordering::Relaxed);
+                let gens: Vec<u64> = per.keys().copied().collect();
+                let whole = per.values().all(|c| *c == members);
+                let consecutive = gens.len() <= 2 && gens.windows(2).all(|w| w[1] == w[0] + 1);
+                if !(whole && consecutive) {
+                    nscan_torn.fetch_add(1, Ordering::Relaxed);
+                    let mut t = scan_torn.lock().unwrap();
+                    if t.len() < 5 {
+                        t.push(json!({"members_per_generation_in_one_scan": per.iter().map(|(g, c)| json!([g, c])).collect::<Vec<_>>(),
+                                      "members_per_batch": members}));
+                    }
+                }
+            }
+        });
         for i in 1..=batches {
             let mut wb = db.write_batch();
             wb.put::<ProbeCol, ProbeVal>(&A, &ProbeVal(i, vec![]));
+            for j in 0..members {
+                wb.insert_member::<PadSet>(&SET, &(i * GEN + j));
+            }
             for f in 0..fillers {
                 wb.put::<ProbeCol, ProbeVal>(&(1000 + f), &ProbeVal(i, vec![0xAB; 64]));
+            }
+            if i > 2 {
+                for j in 0..members {
+                    wb.delete_member::<PadSet>(&SET, &((i - 2) * GEN + j));
+                }
             }
             wb.put::<ProbeCol, ProbeVal>(&B, &ProbeVal(i, vec![]));
             wb.commit();
         }
         stop.store(true, Ordering::SeqCst);
         r.join().unwrap();
+        sc.join().unwrap();
     });
     let t = torn.into_inner().unwrap();
-    json!({"batches": batches, "ops_per_batch": fillers + 2, "reads": reads.load(Ordering::SeqCst),
-           "torn": ntorn.load(Ordering::SeqCst), "samples": t})
+    let st = scan_torn.into_inner().unwrap();
+    json!({"batches": batches, "ops_per_batch": fillers + 2 + 2 * members, "reads": reads.load(Ordering::SeqCst),
+           "torn": ntorn.load(Ordering::SeqCst), "samples": t,
+           "scans": scans.load(Ordering::SeqCst), "members_per_batch": members,
+           "scan_torn": nscan_torn.load(Ordering::SeqCst), "scan_samples": st})
 }
 
 fn mode_atomic(a: &std::collections::HashMap<String, String>) {
